@@ -79,7 +79,9 @@ def replay_compare(ck, jobs, res):
     o = r["obs"]
     bad = None
     want_dt = "float64" if c["dt"] == "f64" else "float32"
-    if o["dtype"] != want_dt or o["shape"] != [c["n"], c["n"]]:
+    if not o["finite"]:
+      bad = ("root_not_finite", f"X has non-finite entries (error={o['err']}, max_eigen_value={o['lam']})")
+    elif o["dtype"] != want_dt or o["shape"] != [c["n"], c["n"]]:
       bad = ("result_dtype_or_shape", f"X is {o['dtype']}{o['shape']}, input was {want_dt}")
     elif d["retriesFixed"] >= 0 and o["retries"] != d["retriesFixed"]:
       bad = ("retries_on_a_branch_without_retry_loop", f"total_retries={o['retries']}")
@@ -139,14 +141,19 @@ def calibrate(ck, pairs, verdicts):
     if c["method"] != "eigh" and c["rel"] and d["m"] > 0:
       ck.calib(f"lambda_hat_over_lambda_max_minus_1_{c['dt']}", max(0.0, o["lam"] / 10.0 ** c["c"] - 1),
                2.0 ** -23 if c["dt"] == "f64" else 2.0 ** -23 + 1e-5)
-    if c["dt"] == "f64" and o["fc"] == "below" and not d["allpad"] and "meas_raw" in o:
+    pi_ok = next(e for e in r["events"] if e["a"] == "Gate")["pi"]
+    if c["dt"] == "f64" and o["fc"] == "below" and not d["allpad"] and "meas_raw" in o and pi_ok:
       base, k = selected(j, r)
       col = o["meas_raw"].get(base, [])
       if k < len(col):
         n_honest += 1
         slack = slack_of(c, d, o, base, k, U)
         n_sharp += slack < 1e-6
-        ck.calib("honest_excess_over_slack", max(0.0, (col[k] - o["err"] * (1 + 2.0 ** -23)) / slack), 1.0)
+        ratio = max(0.0, (col[k] - o["err"] * (1 + 2.0 ** -23)) / slack)
+        ck.calib("honest_excess_over_slack", ratio, 1.0)
+        if ratio >= ck.cov.get("honest_worst_case", {"ratio": -1})["ratio"]:
+          ck.cov["honest_worst_case"] = {"ratio": ratio, "case": label(c), "measured": col[k], "figure": o["err"],
+                                         "slack": slack}
   return n_honest, n_sharp
 
 
@@ -198,7 +205,11 @@ def run(ck):
           if len(ck.cov["in_domain_escalated_examples"]) < 8:
             ck.cov["in_domain_escalated_examples"].append(
                 {"case": label(c), "retries": o["retries"], "error": o["err"], "iters": o["iters"]})
-    tally["pi_premise_failed"] += not next(e for e in r["events"] if e["a"] == "Gate")["pi"]
+    if not next(e for e in r["events"] if e["a"] == "Gate")["pi"]:
+      tally["pi_premise_failed"] += 1
+      ck.cov.setdefault("pi_premise_failed_examples", [])
+      if len(ck.cov["pi_premise_failed_examples"]) < 5:
+        ck.cov["pi_premise_failed_examples"].append({"case": label(c), "power_iteration": o.get("pi_lam")})
     if v["accepted"]:
       ck.traces_ok(1)
     else:
